@@ -115,6 +115,29 @@ def c19_initialisers(ctx, prog):
     ctx.floor("C19.F1", 25)
 
 
+def c19_converters(ctx, prog):
+    """F1c: source_name() looks through calls to `*_from` helpers.  That is justified for helpers that build a C aggregate (their
+    initialisers are C19.F1 obligations) and for error_code_from (C19.F4e); any other one must be a plain conversion of its
+    parameter - one return, no condition, no arithmetic - or a value could be remapped on the way (a sentinel such as
+    reproc::deadline turned into 'infinite')"""
+    for F in prog.funcs_all:
+        if not F.file.endswith("reproc.cpp") or not F.name.endswith("_from") or F.name.endswith("error_code_from"):
+            continue
+        builds = [n for n in F.walk() if n["k"] == "InitListExpr" and n.get("rec") in C_AGGREGATES and n.get("rec")]
+        cvars = [x for x in F.walk() if x["k"] == "VarDecl" and any(a in (x.get("t") or "") for a in C_AGGREGATES if a)]
+        if builds or cvars:
+            ctx.ob("C19.F1c", F.name, "a helper that builds a C aggregate: its initialisers are checked field by field (C19.F1)", True, None)
+            continue
+        rets = [x for x in F.walk() if x["k"] == "ReturnStmt" and x.get("c")]
+        branching = [x["k"] for x in F.walk() if x["k"] in ("ConditionalOperator", "IfStmt", "SwitchStmt", "BinaryOperator", "ForStmt", "WhileStmt",
+                                                           "BinaryConditionalOperator", "CompoundAssignOperator", "UnaryOperator")]
+        ok = len(rets) == 1 and not branching and len(F.params) >= 1 and source_name(rets[0]["c"][0]) == F.params[0]["name"]
+        ctx.ob("C19.F1c", F.name, "a scalar conversion helper hands its parameter on unchanged (cast / count() / data() only): no branch, "
+               "no arithmetic, so no value - in particular no sentinel such as reproc::deadline or reproc::infinite - is remapped", ok,
+               {"returns": [expr_str(r["c"][0])[:70] for r in rets], "operators": sorted(set(branching))})
+    ctx.floor("C19.F1c", 3)
+
+
 def norm(name):
     return name.rstrip("_").lower()
 
@@ -400,6 +423,7 @@ def check_c19(ctx):
     prog = ctx.prog("cxx")
     cprog = ctx.prog("posix-mt")
     c19_initialisers(ctx, prog)
+    c19_converters(ctx, prog)
     c19_enums(ctx, prog, cprog)
     c19_clone(ctx, prog)
     c19_wrappers(ctx, prog, cprog)
